@@ -1015,17 +1015,28 @@ class DisjointSet(object):
                 for k in groupb:
                     self.leader[k] = leadera
             else:
-                self.group[leadera].add(b)
-                self.leader[b] = leadera
+                self._join(b, leadera)
         else:
             if leaderb is not None:
-                self.group[leaderb].add(a)
-                self.leader[a] = leaderb
+                self._join(a, leaderb)
             else:
                 if self.comp is not None and self.comp(a, b) > 0:
                     a, b = b, a
                 self.leader[a] = self.leader[b] = a
                 self.group[a] = set([a, b])
+
+    def _join(self, new: FNode, leader: FNode):
+        """Adds the element new to the group of leader: the element with
+        the best rank leads the group"""
+        group = self.group[leader]
+        group.add(new)
+        if self.comp is not None and self.comp(new, leader) < 0:
+            del self.group[leader]
+            self.group[new] = group
+            for k in group:
+                self.leader[k] = new
+        else:
+            self.leader[new] = leader
 
     def find(self, k: FNode) -> FNode:
         """Find the root of k in the set"""
